@@ -19,7 +19,8 @@ EXPLANATION = (
     "(c) VALUES placement: rdflib translates a VALUES block written after WHERE into Join(p1 = pattern, p2 = ToMultiSet); the service "
     "depends on curies' own _optimize_node flipping every such Join so that the values are bound before triples() runs. "
     "_optimize_node runs on a two-level algebra tree whose node names are symbolic strings: a node is flipped exactly when it "
-    "is a Join with p2 = ToMultiSet and p1 not ToMultiSet, for every name of p1 (BGP, Filter, Extend, ...), nothing else moves. "
+    "is a Join with p2 = ToMultiSet and p1 not ToMultiSet, for every name of p1 (BGP, Filter, Extend, ...), nothing else moves; "
+    "MappingServiceSPARQLProcessor.query hands the rewritten algebra to the evaluator also for an already translated query object. "
     "SPARQL parsing / evaluation themselves, GET vs POST and the two web frameworks are inside rdflib / Flask / FastAPI and "
     "not applicable.")
 BOUNDS = dict(header_parts="<= 2 with symbolic optional whitespace (1 with all 10 media types, 2 with one representative per class); 3 parts over {type, its synonym, other type} without whitespace",
@@ -57,6 +58,7 @@ def jobs(tier):
     J("triples", "triples:[[0,0]]:concrete-custom-predicate", dict(shape=[[0, 0]], custom="http://www.w3.org/2004/02/skos/core#exactMatch"), 600, 5,
       expect=["subject-bound", "object-bound", "nothing"])
     J("optimize", "optimize:join-of-join", dict(), 600, None, expect=["done"])
+    J("processor", "processor:prepared-query", dict(), 600, None, expect=["done"])
     J("header", "header:k=2:all-types", dict(k=2, types="all", ows=True), 3000, 9, ("thorough",), ["supported", "default"])
     J("triples", "triples:[[0,2],[0,0]]", dict(shape=[[0, 2], [0, 0]], custom=False), 2400, 8, ("thorough",), ["subject-bound", "object-bound", "nothing"])
     J("triples", "triples:[[1,1]]:custom-predicate", dict(shape=[[1, 1]], custom=True), 1800, 6, ("thorough",), ["subject-bound", "object-bound", "nothing"])
@@ -198,4 +200,32 @@ def build(job):
                 eng.fail("_optimize_node lost or duplicated an operand")
         return "done"
 
-    return dict(header=header, triples=triples, optimize=optimize)[fn]
+    def processor(eng):
+        """MappingServiceSPARQLProcessor.query with an already translated query object (what rdflib's prepareQuery gives):
+        the algebra handed to the evaluator must have its trailing VALUES block moved first, as for query strings."""
+        import types
+        rc = eng.mods.rdfc
+        CV = rc.CompValue
+        nr, n1, n2 = [eng.var(x) for x in ("name_root", "name_p1", "name_p2")]
+        J_, TMS = z3.StringVal("Join"), z3.StringVal("ToMultiSet")
+        eng.assume(And(_s(n1) != J_, _s(n2) != J_))
+        a, b = CV(n1), CV(n2)
+        root = CV(nr, p1=a, p2=b)
+        seen = []
+        orig = rc.evalQuery
+        rc.evalQuery = lambda graph, query, *rest, **kw: (seen.append(query.algebra), "RESULT")[1]
+        try:
+            out = rc.MappingServiceSPARQLProcessor(None).query(types.SimpleNamespace(algebra=root))
+        finally:
+            rc.evalQuery = orig
+        eng.expect(out == "RESULT" and len(seen) == 1 and seen[0] is root, "the processor does not evaluate the (rewritten) algebra of the query it was given")
+        must_flip = And(_s(nr) == J_, _s(n2) == TMS, _s(n1) != TMS)
+        if root.p1 is b and root.p2 is a:
+            eng.check_holds(must_flip, "the processor swapped the operands of a node that is not a Join with a trailing VALUES block")
+        elif root.p1 is a and root.p2 is b:
+            eng.check_holds(z3.Not(must_flip), "a prepared query with a trailing VALUES block is evaluated without moving the VALUES block first")
+        else:
+            eng.fail("the processor lost or duplicated an operand")
+        return "done"
+
+    return dict(header=header, triples=triples, optimize=optimize, processor=processor)[fn]
